@@ -235,4 +235,8 @@ def run(F, rep):
     import recursion as _recw
     _recw.rule_walkers(F, rep, 'C07.W1', ['clearComponentImports', 'getImportedComponents', 'unitsUsed'], 3, 'collecting what has to be imported')
 
+    # ------------------------------------------------------------------ every element of a collection is handled
+    from engines import rule_visit_all
+    rule_visit_all(F, rep, 'C07.Y1', lambda g: g.file.endswith('/importer.cpp'), 3, 'importer.cpp')
+
 
